@@ -194,7 +194,8 @@ def p_isinstance(ex, args, kw, st):
         elif n == 'ndarray':
             res = res or isinstance(v, (SArr, SSeq))
         elif n in ('Quantity', 'MaskedArray', 'NDData', 'SkyCoord'):
-            res = res or (isinstance(v, SObj) and v.cls == n)
+            res = res or (isinstance(v, SObj) and (v.cls.split('@')[0] == n
+                                                   or ex.registry.is_subclass(v.cls, n)))
         else:
             res = res or (isinstance(v, SObj) and ex.registry.is_subclass(v.cls, n))
     return res
@@ -1287,7 +1288,7 @@ def _record(ex, args, kw, st):
 
 
 TABLE['record_'] = _record
-for _n in ('apsum', 'aperr', 'aparea', 'modelimg', 'apvalues', 'bkgest'):
+for _n in ('apsum', 'aperr', 'aparea', 'modelimg', 'apvalues', 'bkgest', 'apphot'):
     TABLE[_n + '_'] = cl_uf(_n)
 
 
